@@ -1,3 +1,4 @@
+import datetime
 import errno
 import uuid
 
@@ -78,7 +79,11 @@ class AsyncCircusClient(object):
         while True:
             future = concurrent.Future()
             self.stream.on_recv(future.set_result)
-            messages = yield future
+            try:
+                messages = yield tornado.gen.with_timeout(
+                    datetime.timedelta(seconds=self._timeout), future)
+            except tornado.gen.TimeoutError:
+                raise CallError("Timed out.")
 
             for message in messages:
                 try:
